@@ -5,8 +5,6 @@ cd "$(dirname "$0")"
 export GOFLAGS=-mod=mod GOPROXY=off GOSUMDB=off GOTOOLCHAIN=local CGO_ENABLED=0
 mkdir -p .work lean/TongoGen harness/bin evidence
 cp /repo/go.sum harness/go.sum
-(cd harness && go build -o bin/extract ./cmd/extract 2>/dev/null || true)
-(cd harness && for p in props_placeholder; do :; done)
 # translators must have run before the proofs that import TongoGen can build: run every check's generators once
 python3 - <<'PY'
 import glob, os, subprocess, importlib.util, sys
@@ -20,4 +18,5 @@ for p in sorted(glob.glob("props/C*.py")):
         mods, gerr = check.regenerate(P, ext)
         if gerr: print(gerr)
 PY
+python3 tools_gen_driver.py
 (cd lean && lake build)
